@@ -90,6 +90,9 @@ impl<'a> Lineage<'a> {
             Relation::Table(t) => {
                 let path: Vec<String> = t.path().iter().map(|s| s.to_string()).collect();
                 let prot = self.protected.iter().any(|p| p == t.name()) || self.protected_paths.iter().any(|p| *p == path);
+                if std::env::var("QV_DEBUG").is_ok() {
+                    eprintln!("LINEAGE table {} path {:?} protected={prot} (names {:?} paths {:?})", t.name(), path, self.protected, self.protected_paths);
+                }
                 Lin { raw: vec![prot; n], noised: vec![false; n], supp_raw: prot, mult_raw: prot, names }
             }
             Relation::Values(_) => Lin { raw: vec![false; n], noised: vec![false; n], supp_raw: false, mult_raw: false, names },
@@ -138,13 +141,17 @@ impl<'a> Lineage<'a> {
             Relation::Reduce(rd) => {
                 let input = self.of(rd.input());
                 let groups: Vec<String> = rd.group_by().iter().map(|c| c.last().map(|s| s.to_string()).unwrap_or_default()).collect();
-                let group_raw = groups.iter().any(|g| input.idx(g).map_or(true, |i| input.raw[i]));
+                // a grouping / aggregated column the input does not have (malformed plan): no data flows through it
+                if groups.iter().any(|g| input.idx(g).is_none()) || rd.aggregate().iter().any(|a| input.idx(&a.column().last().map(|s| s.to_string()).unwrap_or_default()).is_none()) {
+                    self.unknown.borrow_mut().push(format!("reduce {} names a column its input lacks", rd.name()));
+                }
+                let group_raw = groups.iter().any(|g| input.idx(g).map_or(false, |i| input.raw[i]));
                 let mut raw = vec![];
                 let mut noised = vec![];
                 for a in rd.aggregate() {
                     let col = a.column().last().map(|s| s.to_string()).unwrap_or_default();
                     let i = input.idx(&col);
-                    let col_raw = i.map_or(true, |i| input.raw[i]);
+                    let col_raw = i.map_or(false, |i| input.raw[i]);
                     if groups.contains(&col) {
                         // any aggregate of a grouping column is determined by the group
                         raw.push(col_raw);
@@ -172,7 +179,7 @@ impl<'a> Lineage<'a> {
                     cols.iter().any(|c| {
                         let side = if c.first().map(|s| s.as_str()) == Some("_LEFT_") { "L" } else { "R" };
                         let name = format!("{side}.{}", c.last().cloned().unwrap_or_default());
-                        both.idx(&name).map_or(true, |i| both.raw[i])
+                        both.idx(&name).map_or(false, |i| both.raw[i])
                     })
                 };
                 let mut raw = both.raw.clone();
